@@ -74,7 +74,7 @@ def pvalue(mean, stderr, count):
     from scipy import special
 
     if count > 1 and stderr == 0:
-        return 0.0
+        return 0.0 if mean != 0 else None  # t = 0/0: the definition is silent (the library answers 0, scipy NaN); not compared
     if stderr > 0:
         return float(2 * special.stdtr(count - 1, -abs(mean / stderr)))
     return math.nan
@@ -224,6 +224,8 @@ class C09(Prop):
                     return f"model {m} row {k}: bias_stderr {a['stderr']!r} vs {se!r}"
                 pm = pvalue(float(mean), se, b["count"])
                 pa = a["p"]
+                if pm is None:
+                    continue
                 if not (feq(pa, pm, 1e-6) or (not math.isnan(pa) and not math.isnan(pm) and abs(pa - pm) < 1e-9)):
                     # a stderr that is exactly 0 in exact arithmetic may be ~1e-17 in floats: then p ~ 0 on both sides
                     if not (se == 0 and a["stderr"] < 1e-12 and b["count"] > 1 and (pa < 1e-9 or float(mean) == 0)):
@@ -288,6 +290,8 @@ class C09(Prop):
                     return f"row {r} equals the definition on none of the groups {defs}"
                 c, W, mean, se = hit[0]
                 pm = pvalue(r["mean"], r["stderr"], c)
+                if pm is None:
+                    continue
                 if not (feq(r["p"], pm, 1e-6) or (not math.isnan(pm) and abs(r["p"] - pm) < 1e-9)):
                     return f"p_value {r['p']!r} is not the two-sided t-test with {c - 1} degrees of freedom ({pm!r})"
         return None
